@@ -31,6 +31,9 @@ pub fn build_case(rng: &mut Rng, cfg: &GenCfg, wild_pct: usize, src_fault_pct: u
         print_house(&mut prog.file)
     };
     let source = py::gen_any_source(rng, max_src, src_fault_pct);
+    if std::env::var("TSGMON_DUMP").is_ok() {
+        eprintln!("--- dsl\n{}\n--- source\n{}\n--- globals {:?}", text, source, prog.globals);
+    }
     ProgCase {
         prog,
         text,
